@@ -468,12 +468,21 @@ def aligned(ctx):
     for _ in range(6):
         # same cell, origin shifted by whole cells, any extent
         shift = rng.integers(-6, 7, nd)
+        if _ % 3 == 2:
+            # meshes far apart (tens to a million cells): "differ by whole cells" is still a
+            # statement about a fraction of ONE cell
+            shift = (rng.choice([-1, 1], nd) * 10.0 ** rng.uniform(1, 6, nd)).astype(np.int64)
         n2 = rng.integers(1, 7, nd)
         p1 = spec.pmin + shift * cell
         other = df.Mesh(p1=p1.tolist(), p2=(p1 + n2 * cell).tolist(), n=[int(k) for k in n2])
         what = {"shift_cells": shift, "n2": n2, "spec": spec.describe()}
-        ctx.check("C14.is_aligned.true", bool(mesh.is_aligned(other)) and bool(other.is_aligned(mesh)),
-                  what=what, note="whole-cell shift reported as not aligned")
+        if np.max(np.abs(shift)) <= 6 or spec.dyadic:
+            # (far apart, "a whole number of the mesh's cells" is only well defined when the
+            # arithmetic is exact: the rounding of edges/n times 1e6 cells exceeds the
+            # documented absolute tolerance 1e-12 otherwise - rule R5)
+            ctx.check("C14.is_aligned.true",
+                      bool(mesh.is_aligned(other)) and bool(other.is_aligned(mesh)),
+                      what=what, note="whole-cell shift reported as not aligned")
         # shifted by 10-90 % of a cell along one axis
         ax = int(rng.integers(0, nd))
         fshift = shift.astype(float)
